@@ -359,6 +359,12 @@ def run(ctx):
                 lang = "C"
             jobs.append((unc, tmp, len(jobs), kinds, cfgt, ctx.rng.randint(0, 3), ctx.rng.random() < 0.75, ctx.rng.randrange(1 << 30),
                          ctx.rng.choice(["", "", "", "func", "func", "enum", "enumlast", "init", "initlast", "struct", "args", "ifbody", "switch"]), lang))
+    # cases that once broke the property (kept so that the repair is checked on every run): regress/C07
+    rdir = os.path.join(os.path.dirname(os.path.dirname(os.path.dirname(os.path.abspath(__file__)))), "regress", "C07")
+    if os.path.isdir(rdir):
+        for f in sorted(os.listdir(rdir)):
+            r_ = json.load(open(os.path.join(rdir, f)))
+            jobs.append((unc, tmp, len(jobs), r_["kinds"], r_["cfg_text"], r_["style"], r_["final_nl"], r_["seed"], r_["wrap"], r_.get("lang", "C")))
     res = pmap_proc(_job, jobs, nproc=14)
     evs = [e for r_, meta in res for e in r_]
     metas = {}
